@@ -465,6 +465,17 @@ func checkLoadNormalisation(w *World, r *Report) {
 					continue
 				}
 				for _, pe := range sel {
+					// an already finished job is reported exactly as before: nothing of it (or of its tasks) is rewritten
+					if x == 1 || (c == 1 && s == 1) {
+						for _, e := range pe.Path.Effects {
+							if e.Kind == "store" && strings.HasPrefix(e.Target, J+".") {
+								bad++
+								if first == "" {
+									first = fmt.Sprintf("row started=%v completed=%v canceled=%v (already finished): the load loop rewrites %s := %s", s == 1, c == 1, x == 1, strings.TrimPrefix(e.Target, J), e.Val)
+								}
+							}
+						}
+					}
 					terminal := pe.Env["completed"] == 1 || pe.Env["canceled"] == 1
 					alreadyTerminal := x == 1 || (c == 1 && s == 1)
 					unchanged := pe.Env["completed"] == c && pe.Env["canceled"] == x && pe.Env["startptr"] == s
@@ -480,7 +491,7 @@ func checkLoadNormalisation(w *World, r *Report) {
 		}
 	}
 	r.Check(bad == 0, "normalise.table", FuncName(loadFn)+": (started, completed, canceled) table", w.InstrPos(mapCall),
-		fmt.Sprintf("all %d rows end terminal (completed ∨ canceled); already-terminal rows are unchanged", rows),
+		fmt.Sprintf("all %d rows end terminal (completed ∨ canceled); already-finished rows are unchanged, including their tasks (no store into the job on their paths)", rows),
 		fmt.Sprintf("%d of %d rows violate the normalisation table; first: %s — a job that was waiting or running at the crash is reported as still waiting/running (and holds a slot) after the restart", bad, rows, first))
 
 	// index insertion: on every path of the loop body, exactly one insertion into each index, of the built job
